@@ -48,6 +48,35 @@ def subEnc (kind : String) (toks : List String) : Option String :=
 
 def packetsStr (ps : List Packet) : String := join (wPackets ps)
 
+/-- Marshal of a packet or sub-structure value given as tokens -/
+def encAny (kind : String) (toks : List String) : Option (Out Bytes) :=
+  match kind with
+  | "HDR" => (run pHeader toks).map (·.enc)
+  | "RREP" => (run pRRep toks).map (·.enc)
+  | "CHUNK" => (run pChunk toks).map (·.enc)
+  | "ITEM" => (run pItem toks).map (·.enc)
+  | "TCHUNK" => (run pTwccChunk toks).map (·.enc)
+  | "DELTA" => (run pDelta toks).map (·.enc)
+  | _ => match kindOfName kind with
+    | some k => (run (pBody k) toks).map (·.enc)
+    | none => none
+
+def relayLine (b : Bytes) : String :=
+  match udec b with
+  | .ok ps =>
+    let t0 := packetsStr ps
+    let list := match ps with
+      | [] => []
+      | p :: rest => p :: Packet.pli { sender := 1, media := 2 } :: rest
+    match uenc list with
+    | .ok out => s!"ok {t0} ; {hexOf out} ; concat-ok"
+    | .err => s!"ok {t0} ; err"
+    | .panic => "panic"
+    | .diverge => "diverge"
+  | .err => "err"
+  | .panic => "panic"
+  | .diverge => "diverge"
+
 /-- the documented quantisations of C02 are applied by the *harness oracle*; the model just runs the chain -/
 def rtLine (ps : List Packet) : String :=
   match uenc ps with
@@ -174,6 +203,19 @@ def execOp (line : String) : String :=
     | "cdst" => withPkts fun ps => dstLine (cdst ps)
     | "rt" => withPkts rtLine
     | "reenc" => withHex reencLine
+    | "relay" => withHex relayLine
+    | "hold" =>
+        let a := args.takeWhile (· ≠ "|")
+        let b := (args.dropWhile (· ≠ "|")).drop 1
+        let f (o : Out Bytes) : Option String := match o with
+          | .ok x => some (hexOf x)
+          | .err => some "err"
+          | _ => none
+        match encAny kind a, encAny kind b with
+        | some x, some y => match f x, f y with
+          | some sx, some sy => s!"ok {sx} ; {sy}"
+          | _, _ => "panic"
+        | _, _ => bad
     | "rto" => withPkt fun p =>
         match p.enc with
         | .ok b =>
